@@ -413,7 +413,7 @@ func resolveIncludePaths(basePath string, includes []ast.Include) []string {
 			if include.CheckGlobComplexity(inc.Path) != nil {
 				continue
 			}
-			pattern := include.ConvertHledgerGlob(inc.Path)
+			pattern := include.ExpandHome(include.ConvertHledgerGlob(inc.Path))
 			if !filepath.IsAbs(pattern) {
 				pattern = filepath.Join(dir, pattern)
 			}
